@@ -87,12 +87,13 @@ _QF = {"shuffles_checked": 250, "shuffle_key_sets_checked": 240, "shuffle_partit
        "set_index_with_several_output_partitions": 180, "drop_duplicates_checked": 170, "drop_duplicates_with_duplicates": 110,
        "survivor_checked": 110, "dedup_after_shuffle_with_one_shuffle_layers": 40, "nunique_checked": 50, "unique_checked": 30,
        "compute_views": 200, "side_divisions_monitor_runs": 200, "inputs_unknown_divisions": 550}
+# (_QF = 45 % of the counts of a 2400-case run; the quick tier runs 1800 cases, the thorough tier 24000)
 FLOORS = {
-    "quick": {"evaluations": 1100, "distinct_nontrivial": 850, "counters": dict(_QF),
-              "sets": {"shuffle_feature": 120, "sort_feature": 90, "dedup_feature": 70, "set_index_feature": 15},
+    "quick": {"evaluations": 800, "distinct_nontrivial": 620, "counters": {k: int(0.75 * v) for k, v in _QF.items()},
+              "sets": {"shuffle_feature": 95, "sort_feature": 70, "dedup_feature": 55, "set_index_feature": 14},
               "max_skipped_fraction": 0.2},
     "thorough": {"evaluations": 10000, "distinct_nontrivial": 8000, "counters": {k: 9 * v for k, v in _QF.items()},
-                 "sets": {"shuffle_feature": 300, "sort_feature": 250, "dedup_feature": 150, "set_index_feature": 25},
+                 "sets": {"shuffle_feature": 400, "sort_feature": 280, "dedup_feature": 160, "set_index_feature": 18},
                  "max_skipped_fraction": 0.2},
 }
 EXHAUSTIVE_SPACE = None
@@ -152,7 +153,7 @@ PENDING = {
         "df.loc[[True]] -> boolean mask semantics -> IndexError",
     "set_index:sorted:bool-column:graph:rows-length":
         "same overlap fix-up with one-row partitions: df.drop(True) / df.loc[[True]] act as masks and rows are lost",
-    "set_index:sorted:IndexError@dataframe/dask_expr/_collection.py:compute_current_divisions":
+    "set_index:sorted&empty-frame:IndexError@dataframe/dask_expr/_collection.py:compute_current_divisions":
         "set_index(col, sorted=True) on an empty frame raises IndexError (same as C41 finding 8)",
     # ---- drop_duplicates
     "drop_duplicates:shuffle=disk:survivor":
@@ -191,10 +192,12 @@ def _shuffle_kw(rng):
 
 def cases(tier, seed):
     rng = random.Random(seed * 40503 % (2 ** 31) + 40)
-    n = 2400 if tier == "quick" else 24000
+    n = 1800 if tier == "quick" else 24000
     for i in range(n):
         c = _base(rng)
-        op = ("shuffle", "sort", "set_index", "dedup")[i % 4]
+        if i % 4 == 0:      # every block of four holds each facet once, in random order (shards take i % nshards)
+            block = rng.sample(("shuffle", "sort", "set_index", "dedup"), 4)
+        op = block[i % 4]
         c["op"] = op
         c.update(_shuffle_kw(rng))
         if op == "shuffle":
@@ -690,6 +693,7 @@ def _set_index(case, ctx, pdf, ddf):
         feat = "set_index:%s:%s-column%s%s%s" % (fmode, ck, "&na-values" if hasna else "", allna, pres)
     emode = "quantile-divisions" if hasna and mode in ("plain", "npartitions") else mode
     efeat = "set_index:%s%s" % (emode, "&%s-column&na-values%s" % (ck, allna) if hasna else
+                                "&empty-frame" if len(pdf) == 0 and mode == "sorted" else
                                 "&category-column" if ck.startswith("category") and mode == "sorted" else
                                 "&bool-column" if ck == "bool" and mode == "sorted" else "")
     refine = None
@@ -709,7 +713,8 @@ def _set_index(case, ctx, pdf, ddf):
     keyframe = lambda f: f.index.to_frame(index=False)  # noqa: E731
     good = _ordered_check(ctx, feat, "graph", got, exp, keyframe, "index", desc)
     if case.get("also_compute") and good:
-        ok, whole = _guard(ctx, efeat + ":compute", lambda: r.compute(scheduler="sync"), desc, refine)
+        # (the graph view was right: an exception here comes from what compute() appends, whatever the column)
+        ok, whole = _guard(ctx, "set_index:%s:compute" % mode, lambda: r.compute(scheduler="sync"), desc, refine)
         if ok:
             ctx.count("compute_views")
             _ordered_check(ctx, feat, "compute", whole, exp, keyframe, "index", desc)
